@@ -150,6 +150,22 @@ def run(ctx):
             ctx.count('override:array+clim')
             if r[0] != 'ok' or not numpy.array_equal(numpy.asarray(r[1].get_array()), own) or tuple(r[1].get_clim()) != (-5, 5):
                 ctx.report('property', 'user supplied array / clim are not used as given', case)
+            # a masked array supplied by the user (land masked out): mask and values reach the artist as given
+            if len(want_cells) >= 2:
+                m_own = numpy.ma.masked_array(numpy.arange(len(want_cells), dtype='f8') + 10, mask=[k % 3 == 1 for k in range(len(want_cells))],
+                                              fill_value=1e20)
+                r = attempt(lambda: ems.make_poly_collection(array=m_own))
+                ctx.count('override:masked array')
+                if r[0] != 'ok':
+                    ctx.report('property', f'a user supplied masked array is refused: {r[1]}', case)
+                else:
+                    got_a = numpy.ma.asarray(r[1].get_array())
+                    gm = numpy.ma.getmaskarray(got_a)
+                    if got_a.shape != m_own.shape or not numpy.array_equal(gm, numpy.ma.getmaskarray(m_own)) or not numpy.array_equal(
+                            got_a.compressed(), m_own.compressed()):
+                        ctx.report('property', f'a user supplied masked array does not reach the collection as given: mask '
+                                   f'{gm.tolist()} values {numpy.ma.getdata(got_a).tolist()}; supplied mask '
+                                   f'{numpy.ma.getmaskarray(m_own).tolist()}', case)
             r = attempt(lambda: ems.make_poly_collection('scalar', clim=(0, 1)))
             ctx.count('override:clim')
             if r[0] != 'ok' or tuple(r[1].get_clim()) != (0, 1):
